@@ -52,11 +52,58 @@ def passK (g : K → K) (first : Bool) (st : BState K) : BState K :=
   else if 0 < g st.lower * g m then ⟨m, st.upper, m, nextErr first m st⟩
   else ⟨st.lower, st.upper, if g st.lower = 0 then st.lower else m, 0⟩
 
+/-- over a field the sum is always "finite": the midpoint is `(l + u) / 2` -/
+theorem midpoint_eq (l u : K) : midpoint l u = (l + u) / 2 := by
+  simp [midpoint, finiteS]
+
+/-- over an ordered field the sign test has the sign of the product -/
+theorem signTest_neg (a b : K) : signTest a b < 0 ↔ a * b < 0 := by
+  unfold signTest signumS
+  rcases lt_trichotomy a 0 with h | h | h
+  · have hne : a ≠ 0 := ne_of_lt h
+    simp only [beq_iff_eq, hne, if_false, h, if_true, neg_one_mul, neg_lt_zero]
+    constructor
+    · intro hb; exact mul_neg_iff.mpr (Or.inr ⟨h, hb⟩)
+    · intro hab
+      rcases mul_neg_iff.mp hab with ⟨h1, _⟩ | ⟨_, h2⟩
+      · exact absurd h1 (not_lt.mpr (le_of_lt h))
+      · exact h2
+  · subst h; simp
+  · have hne : a ≠ 0 := ne_of_gt h
+    simp only [beq_iff_eq, hne, if_false, not_lt_of_gt h, h, if_true, one_mul]
+    constructor
+    · intro hb; exact mul_neg_iff.mpr (Or.inl ⟨h, hb⟩)
+    · intro hab
+      rcases mul_neg_iff.mp hab with ⟨_, h2⟩ | ⟨h1, _⟩
+      · exact h2
+      · exact absurd h1 (not_lt.mpr (le_of_lt h))
+
+theorem signTest_pos (a b : K) : 0 < signTest a b ↔ 0 < a * b := by
+  unfold signTest signumS
+  rcases lt_trichotomy a 0 with h | h | h
+  · have hne : a ≠ 0 := ne_of_lt h
+    simp only [beq_iff_eq, hne, if_false, h, if_true, neg_one_mul, neg_pos]
+    constructor
+    · intro hb; exact mul_pos_iff.mpr (Or.inr ⟨h, hb⟩)
+    · intro hab
+      rcases mul_pos_iff.mp hab with ⟨h1, _⟩ | ⟨_, h2⟩
+      · exact absurd h1 (not_lt.mpr (le_of_lt h))
+      · exact h2
+  · subst h; simp
+  · have hne : a ≠ 0 := ne_of_gt h
+    simp only [beq_iff_eq, hne, if_false, not_lt_of_gt h, h, if_true, one_mul]
+    constructor
+    · intro hb; exact mul_pos_iff.mpr (Or.inl ⟨h, hb⟩)
+    · intro hab
+      rcases mul_pos_iff.mp hab with ⟨_, h2⟩ | ⟨h1, _⟩
+      · exact h2
+      · exact absurd h1 (not_lt.mpr (le_of_lt h))
+
 theorem bisectPass_evOf (g : K → K) (first : Bool) (st : BState K) :
     bisectPass (evOf g) first st = .ok (passK g first st) := by
   unfold bisectPass evOf passK nextErr
-  simp only [sabs_eq_abs, Nat.cast_ofNat, ← add_div, Bool.and_eq_true, Bool.not_eq_eq_eq_not, Bool.not_true,
-    beq_eq_false_iff_ne, beq_iff_eq, ne_eq]
+  simp only [sabs_eq_abs, midpoint_eq, signTest_neg, signTest_pos, Bool.and_eq_true, Bool.not_eq_eq_eq_not,
+    Bool.not_true, beq_eq_false_iff_ne, beq_iff_eq, ne_eq]
   split_ifs <;> rfl
 
 theorem bisectPass_bracket {ev : K → Except PErr K} {first : Bool} {st st' : BState K}
@@ -65,7 +112,7 @@ theorem bisectPass_bracket {ev : K → Except PErr K} {first : Bool} {st st' : B
   have hm1 : st.lower ≤ (st.lower + st.upper) / 2 := by linarith
   have hm2 : (st.lower + st.upper) / 2 ≤ st.upper := by linarith
   unfold bisectPass at h
-  simp only [Nat.cast_ofNat, ← add_div] at h
+  simp only [midpoint_eq] at h
   split at h
   · cases h
   · split at h
